@@ -420,6 +420,20 @@ func (e *MetaCDC) checkDuplicateCollection(uKey string,
 	return excludeCollectionNames, nil
 }
 
+// rebuildExcludeData recomputes the exclusions of a target from the tasks that are left: an exclusion
+// shared by several tasks must survive the removal of one of them. It needs the collectionNames lock.
+func (e *MetaCDC) rebuildExcludeData(uKey string) {
+	var excludes []string
+	e.cdcTasks.RLock()
+	for _, t := range e.cdcTasks.data {
+		if getTaskUniqueIDFromInfo(t) == uKey {
+			excludes = append(excludes, t.ExcludeCollections...)
+		}
+	}
+	e.cdcTasks.RUnlock()
+	e.collectionNames.excludeData[uKey] = lo.Uniq(excludes)
+}
+
 func (e *MetaCDC) Create(req *request.CreateRequest) (resp *request.CreateResponse, err error) {
 	defer func() {
 		log.Info("create request done")
@@ -464,6 +478,7 @@ func (e *MetaCDC) Create(req *request.CreateRequest) (resp *request.CreateRespon
 			// this request claimed the user-role replication of the target (a second claim is rejected before)
 			e.collectionNames.extraInfos[uKey] = model.ExtraInfo{}
 		}
+		e.rebuildExcludeData(uKey)
 	}
 
 	defer func() {
@@ -1448,6 +1463,10 @@ func (e *MetaCDC) delete(taskID string) error {
 	e.cdcTasks.Lock()
 	delete(e.cdcTasks.data, taskID)
 	e.cdcTasks.Unlock()
+
+	e.collectionNames.Lock()
+	e.rebuildExcludeData(uKey)
+	e.collectionNames.Unlock()
 
 	e.replicateEntityMap.Lock()
 	if replicateEntity, ok := e.replicateEntityMap.data[uKey]; ok {
